@@ -6,6 +6,7 @@ require (
 	github.com/alibaba/RedisShake v0.0.0
 	github.com/cupcake/rdb v0.0.0-20161107195141-43ba34106c76
 	github.com/garyburd/redigo v1.6.2
+	golang.org/x/sync v0.0.0-20181221193216-37e7f081c4d4
 	github.com/vinllen/redis-go-cluster v1.0.1-0.20200724054240-c957918bbc61
 )
 
